@@ -404,7 +404,7 @@ pub fn run(r: &mut Runner) -> &'static str {
     r.rule = "inputs: address values - Unknown, IPv4 pairs (random + 0.0.0.0 / 255.255.255.255 / loopback ...), IPv6 pairs (random, every one of the 256 zero-group masks so every `::` shape occurs, IPv4-mapped / compatible, \
               all-zero, all-ones) x ports {0,1,9,10,99,100,...,65535,random}; and, for the second clause, accepted lines in every spelling. oracle: round trip - to_string() is accepted by the reference grammar R-V1 with the same decode, \
               is <= 107 bytes, has the prescribed decimal IPv4 / port text (IPv6 spelling free), and try_from(&str), try_from(&[u8]), parse::<Addresses>, parse::<Header>, HeaderResult::parse all return the same value and text; a parsed \
-              header prints exactly its input line. non-trivial = TCP4/TCP6 value with source != destination and differing ports (or any accepted line for clause 2); distinct by SipHash. Exhaustive sub-stage: all 256 x 256 zero-group mask pairs"
+              header prints exactly its input line. non-trivial = TCP4/TCP6 value with source != destination and differing ports (or any accepted line for clause 2); distinct by SipHash. Exhaustive sub-stage: all 256 x 256 zero-group mask pairs Added later: every port / octet / group value in every role, related values judged back to back, formatting into sinks that run out of room, option-carrying format specs, clone_from copies."
         .into();
     let n = r.n(300_000, 8_000_000);
     r.random("c08.roundtrip", n, 64, &gen_case, &judge);
